@@ -1,0 +1,34 @@
+//go:build verif
+
+// Lemma harnesses for package table: real Go functions composing the real functions; the
+// verifier proves their postconditions from the callees' contracts only.
+
+package table
+
+// lemmaKeyDiffRoundTrip: C18, key prefix compression loses nothing: the overlap with the base
+// key followed by the stored difference is the key again (this is how blockIterator.setIdx
+// rebuilds it).
+//
+//@ func lemmaKeyDiffRoundTrip
+//@   props C18
+//@   requires b != nil && b.curBlock != nil
+//@   ensures[same-key] bytes(result) == bytes(key)
+func lemmaKeyDiffRoundTrip(b *Builder, key []byte) []byte {
+	d := b.keyDiff(key)
+	ov := len(key) - len(d)
+	out := make([]byte, 0, len(key))
+	out = append(out, b.curBlock.baseKey[:ov]...)
+	out = append(out, d...)
+	return out
+}
+
+// lemmaEntryHeaderRoundTrip: C18, the 4-byte entry header round-trips.
+//
+//@ func lemmaEntryHeaderRoundTrip
+//@   props C18
+//@   ensures[same] result == h
+func lemmaEntryHeaderRoundTrip(h header) header {
+	var out header
+	out.Decode(h.Encode())
+	return out
+}
